@@ -82,3 +82,22 @@ Example C04_ex_used :
 Proof. vm_compute. repeat split; reflexivity. Qed.
 Example C04_ex_host_mono : host_mono (host_tab 64).
 Proof. exact (host_tab_mono 64). Qed.
+
+(* ---- the transfer host call: charge 10, plus its gas argument exactly when it succeeds ---- *)
+From JamV Require Import Model.PvmHostGas Proofs.PvmHostGasP.
+
+Theorem C04_transfer_charge : forall c l s s', 0 <= l -> host_transfer c l s = HCont s' ->
+  gas s' = gas s - 10 - (match c with XOk => l | _ => 0 end) /\ 0 <= gas s'.
+Proof. exact transfer_charge. Qed.
+Print Assumptions C04_transfer_charge.
+
+Theorem C04_transfer_oog_iff : forall c l s, 0 <= l ->
+  (exists s', host_transfer c l s = HStop OutOfGas s') <->
+  gas s < 10 + (match c with XOk => l | _ => 0 end).
+Proof. exact transfer_oog_iff. Qed.
+Print Assumptions C04_transfer_oog_iff.
+
+Theorem C04_transfer_error_costs_ten : forall c l s, c <> XOk -> 10 <= gas s ->
+  exists s', host_transfer c l s = HCont s' /\ gas s' = gas s - 10.
+Proof. exact transfer_error_costs_ten. Qed.
+Print Assumptions C04_transfer_error_costs_ten.
